@@ -260,6 +260,26 @@ def run_case(case):
                     results[chunk] = {nm: int(v) for nm, v in d.items()}
                 except Exception as e:
                     res.exception("venn:exception", e, label)
+            # other coincidence windows: every spike still belongs to exactly one region, whatever the bin sizes and the channel count
+            for _r in range(2):
+                sb = [None, 1, 5, 30, 97, 360][int(rng.integers(0, 6))]
+                cb = int(rng.choice([1, 2, 4, 7, 16, 384]))
+                nch = int(rng.choice([384, 384, 385, 400, 768]))
+                fs2 = float(rng.choice([30000, 30000, 2500, 20000]))
+                chunk = [None, 12345, 30000, 600000, (sb or 12) * int(rng.integers(100, 5000))][int(rng.integers(0, 5))]
+                sbe = sb or int(0.4 * fs2 / 1000)
+                if (chunk or 20 * fs2) / sbe * nch / cb > 6e5:          # bins per chunk: keep the count matrix small (memory / time, not a different code path)
+                    chunk = max(sbe, int(6e5 * sbe * cb / nch))
+                label = f"venn{k} dur={dur} n={[len(s) for s in samples]} samples_binsize={sb} channels_binsize={cb} num_channels={nch} fs={fs2} chunk_size={chunk}"
+                try:
+                    with contextlib.redirect_stdout(io.StringIO()), contextlib.redirect_stderr(io.StringIO()):
+                        d = fn(tuple(samples), tuple(channels), samples_binsize=sb, channels_binsize=cb, fs=fs2 if fs2 != 30000 else 30000, num_channels=nch, chunk_size=chunk)
+                    for j in range(k):
+                        tot = sum(int(v) for nm, v in d.items() if nm[j] == "1")
+                        res.check(tot == len(samples[j]), "venn:conservation:bin-parameters", f"{label}: sorter {j + 1}: regions containing it sum to {tot}, it has {len(samples[j])} spikes",
+                                  counter="venn_conservation")
+                except Exception as e:
+                    res.exception("venn:exception:bin-parameters", e, label)
             # bin-aligned chunk sizes (multiples of the 12-sample bin) give the same dictionary
             aligned = [c for c in results if c is not None and c % 12 == 0] + ([None] if None in results else [])
             for a in aligned[1:]:
